@@ -13,7 +13,10 @@ TECHNIQUE = ('partial evaluation of the template-selecting methods of PyrexTypes
              'DICT: abstract interpretation of the expanded dict -> struct/union converter over the complete partition of mappings (member keys present x other keys); '
              'ENC: per preprocessor configuration path walk of the str -> char* encoder with an ASCII-witness typestate (guard dominance / count-equality exit); '
              'SHAPE: symbolic interpretation of every container / string / array conversion template (loops run on a generic element, index or iterator position; effects recorded per loop) against the '
-             'specification of the conversion, carray.from_py interpreted for lengths 1..3 x 0..4 items x with/without len(); OUTLEN / NEGCHK: finite-state dataflow over the CFG of the TypeConversion.c helpers')
+             'specification of the conversion, carray.from_py interpreted for lengths 1..3 x 0..4 items x with/without len(); OUTLEN / NEGCHK: finite-state dataflow over the CFG of the TypeConversion.c helpers; '
+             'DIRS: token-flow partial evaluation (module-directive tokens vs default tokens) of CythonUtilityCode.__init__ / filter_inherited_directives / get_tree and the context constructors they reach, '
+             'needed directives = the ones the coercion code of ExprNodes.py reads, def-use of outer_module_scope= at the load sites of templates that build Python objects from caller-supplied types; '
+             'CSTYPE: truth table over the complete (normalised) value set of c_string_type of three extracted tables (assumed result type, module-wide macro flavour, element helper flavour)')
 DECIDES = ('(TAB) for every key of builtin_cpp_conversions and cpp_string_conversions, create_from_py_utility_code and create_to_py_utility_code load an existing '
            '<cls>.from_py / <cls>.to_py section of CppConvert.pyx, and the element-type placeholders the section uses (X, Y ...) are exactly the ones supplied for the '
            "table's template count; (CTX) at every CythonUtilityCode.load site for CppConvert.pyx / CConvert.pyx the Tempita variables read by the section are keys of the "
@@ -30,9 +33,16 @@ DECIDES = ('(TAB) for every key of builtin_cpp_conversions and cpp_string_conver
            '(SHAPE) every element of the source is converted exactly once with the cast to its element type (vector / list / set .from_py), dict items arrive as (key -> first, value -> second) and back, '
            'pair and complex keep their component order, string.from_py passes the length the buffer helper stored, the *.to_py sequence builders allocate size() slots, fill slot I with element I for every I, '
            'INCREF before the stealing SET_ITEM and range-check size() before the cast; carray.from_py returns 0 exactly for `length` items, stores item i in v[i], never writes v[i >= length], raises IndexError otherwise. '
-           '(OUTLEN) helpers with a Py_ssize_t* out-parameter store the length on every path that returns a buffer. (NEGCHK) results that are negative exactly on failure are tested (true for -1, false for 0) before use.')
+           '(OUTLEN) helpers with a Py_ssize_t* out-parameter store the length on every path that returns a buffer. (NEGCHK) results that are negative exactly on failure are tested (true for -1, false for 0) before use. '
+           '(DIRS) every directive read while a value is coerced between C and Python (coercion node classes, coerce_to methods and the helpers they call: today c_string_type, c_string_encoding) '
+           "arrives, as the value of the module being compiled, in the compiler_directives of a Cython-level helper loaded with outer_module_scope (with and without unrelated overrides), that table is the "
+           'compiler_directives of the context object from which get_tree builds the nested pipeline, and every load of a template that returns Python objects built from caller-supplied types passes '
+           'outer_module_scope derived from the scope the conversion is requested for, without overriding those directives. '
+           '(CSTYPE) for each value c_string_type can take after normalisation: the preamble defines all __Pyx_PyObject_From* macros with one flavour F, the helper that tells the compiler the result type '
+           'of a C string -> Python coercion yields a builtin type, and to_py_call_code maps that type to the same flavour F (so nested elements and top-level values become the same Python type).')
 NOT_DECIDED = ('the conversion of the individual ELEMENTS inside the container templates (the `<X>item` casts are generated per element type: type checks, overflow) and of the individual struct/union fields; '
-               'that a utf8 configuration never rejects non-ASCII text; whether a required utility section is emitted before use (I8).')
+               'that a utf8 configuration never rejects non-ASCII text; whether a required utility section is emitted before use (I8); '
+               'what the nested pipeline does with the directives it is handed (InterpretCompilerDirectives and later); directive dependence of the from-Python direction (decided by C macros).')
 ASSUMPTIONS = ['a C++ string type has no template parameters (the only execution of the selection methods that does not raise KeyError)',
                'CPython C-API functions returning int/Py_ssize_t signal errors with -1, pointer-returning ones with NULL']
 
@@ -84,6 +94,14 @@ MUTATIONS = [
     ('Cython/Utility/CConvert.pyx', 'carray-to-tuple-index / carray-from-overrun / carray-from-never-ok', 'C33-SHAPE'),
     ('Cython/Utility/TypeConversion.c', 'asstring-bytearray-length', 'C33-OUTLEN'),
     ('Cython/Utility/TypeConversion.c', 'asstring-bytes-error / fromstring-len-negative', 'C33-NEGCHK'),
+    # fifth round (seed C33f: two inherited directive names fused by a lost comma): stored under /verif/mutants/C33/dirs-* and cstype-*
+    ('Cython/Compiler/UtilityCode.py', 'dirs-inherit-drop-encoding / dirs-inherit-typo-type / dirs-inherit-copies-default / dirs-init-filter-discarded / dirs-init-overrides-only / dirs-gettree-no-directives', 'C33-DIRS'),
+    ('Cython/Compiler/TreeFragment.py', 'dirs-strctx-always-empty', 'C33-DIRS'),
+    ('Cython/Compiler/PyrexTypes.py', 'dirs-load-carray-to-no-scope / dirs-load-cpp-to-decl-scope / dirs-load-cpp-to-override', 'C33-DIRS'),
+    ('Cython/Compiler/ExprNodes.py', 'cstype-defstr-bytearray-bytes / cstype-defstr-missing-str', 'C33-CSTYPE'),
+    ('Cython/Compiler/ModuleNode.py', 'cstype-modnode-str-arm / cstype-modnode-size-macro-bytes', 'C33-CSTYPE'),
+    ('Cython/Compiler/PyrexTypes.py', 'cstype-namemap-bytearray-bytes', 'C33-CSTYPE'),
+    ('Cython/Compiler/UtilityCode.py', 'ok-dirs-list-rewritten / ok-dirs-dictcomp / ok-dirs-init-else / ok-dirs-extract-helpers / ok-dirs-load-local-scope / ok-cstype-rewritten', None),
     # behaviour-preserving, must stay silent
     ('Cython/Utility/CConvert.pyx', 'union: drop `length = 0` after a repeated key / swap the two final messages (`is None` <-> `is not None`: both arms raise ValueError) / final arm `elif repeated_key is not None or length or True:`; '
                                     'struct: try/except replaced by a per-member `if name not in obj: raise ValueError`', None),
